@@ -70,6 +70,11 @@ Proof.
 Qed.
 Print Assumptions C14_ranged_lossless.
 
+(* [printable] is decidable; the correspondence run evaluates [printableb] on every list it prints *)
+Theorem C14_printable_decidable : forall l, printableb l = true -> printable l.
+Proof. exact printableb_sound. Qed.
+Print Assumptions C14_printable_decidable.
+
 Example C14_printable_nonvacuous :
   printable [mkhr [97] 8 11 1 false; mkhr [97] 13 13 1 false; mkhr [98] 0 0 0 true; mkhr [99] 5 5 3 false].
 Proof.
